@@ -408,7 +408,7 @@ impl Part for Worlds {
         "worlds"
     }
     fn cases(&self, tier: Tier) -> u32 {
-        tier.pick(6000, 190_000)
+        tier.pick(12_000, 190_000)
     }
     fn strategy(&self, _tier: Tier) -> BoxedStrategy<Case> {
         case_strategy(8, None, GenCfg { min_facts: 3, max_facts: 14, max_rules: 3, max_premises: 3, filters: true, negation: true, var_predicates: true })
